@@ -152,6 +152,7 @@ func genC08(r *simrt.Rand, tier string, idx uint64) *Plan {
 			h, op := c08Point(e*6+k, thorough)
 			if k == 0 {
 				p.Header = h
+				p.Plain = false // the three-argument Listen/Dial forms imply the default header
 			} else if h != p.Header {
 				break
 			}
@@ -255,4 +256,77 @@ func clipStack(s string) string {
 
 func init() {
 	register(&Scenario{Property: "C08", Name: "c08", Gen: genC08, Main: (*World).RunConnWorld, Check: checkC08, JudgesPanics: true})
+}
+
+// ------------------------------------------------------------------ C08 in the other worlds
+//
+// A peer that goes away must not crash the process through the Transport or the
+// load-balancing Client either: the Transport and Client workloads (server kill/restart,
+// connection drops, targets refusing and recovering under every scheduling policy) are run
+// with the crash oracle only.
+
+func checkPanicsOnly(w *World, run *simrt.Run) {
+	for _, pn := range run.Panics {
+		top := topFrame(pn.Stack)
+		val := pn.Value
+		if strings.Contains(val, "index out of range") {
+			val = "index out of range"
+		}
+		if strings.Contains(val, "slice bounds out of range") {
+			val = "slice bounds out of range"
+		}
+		w.Violate("C08.panic", fmt.Sprintf("panic:%s@%s", val, top), fmt.Sprintf("goroutine %s (%s) panicked: %s\n%s", pn.G, pn.Site, pn.Value, clipStack(pn.Stack)))
+	}
+}
+
+func genC08C(r *simrt.Rand, tier string, idx uint64) *Plan {
+	nt := 3 + r.Intn(3)
+	p := genCBase(r, "c08c", nt)
+	p.Params["sched"] = int(idx % 3)
+	p.Params["tick_ms"] = []int{10, 100, 400}[r.Intn(3)]
+	p.Params["dialtimeout_ms"] = []int{200, 2000}[r.Intn(2)]
+	p.Params["warmup_ms"] = 300
+	p.Lists = [][]int{allTargets(nt)}
+	// backends die and come back at PRNG instants
+	end := 0
+	for i := range p.Targets {
+		if r.Chance(2, 3) {
+			t, up := 0, 1
+			for k := 0; k < 1+r.Intn(4); k++ {
+				t += 200 + r.Intn(1500)
+				up = 1 - up
+				p.Targets[i].Up = append(p.Targets[i].Up, [2]int{t, up})
+			}
+			if t > end {
+				end = t
+			}
+		}
+	}
+	for c := 0; c < 1+r.Intn(4); c++ {
+		cp := ClientPlan{}
+		t := 0
+		for t < end+1500 {
+			cp.Ops = append(cp.Ops, Op{Kind: cForms[r.Intn(len(cForms))]})
+			gap := 5 + r.Intn(120)
+			cp.Ops = append(cp.Ops, Op{Kind: "sleep", N: gap * 1000})
+			t += gap
+		}
+		p.Clients = append(p.Clients, cp)
+	}
+	if r.Chance(1, 4) {
+		p.Lists = append(p.Lists, allTargets(nt)[:1+r.Intn(nt)])
+		p.Clients = append(p.Clients, ClientPlan{Ops: []Op{{Kind: "sleep", N: 1000 * r.Intn(end+500)}, {Kind: "update", List: 1}}})
+	}
+	return p
+}
+
+func genC08T(r *simrt.Rand, tier string, idx uint64) *Plan {
+	p := genC14(r, tier, idx*2+1) // concurrent callers, kill/restart
+	p.Scenario = "c08t"
+	return p
+}
+
+func init() {
+	register(&Scenario{Property: "C08", Name: "c08c", Gen: genC08C, Main: (*World).RunClientWorld, Check: checkPanicsOnly, JudgesPanics: true})
+	register(&Scenario{Property: "C08", Name: "c08t", Gen: genC08T, Main: (*World).RunTransportWorld, Check: checkPanicsOnly, JudgesPanics: true})
 }
